@@ -661,7 +661,12 @@ def run_targets(targets, tier, jobs=16, keep=False):
         sw = t.get("sweep")
         vals = [None]
         if sw:
-            vals = list(range(sw["from"], sw["to"] + 1))
+            if "values" in sw:
+                vals = list(sw["values"])
+                if tier == "quick" and sw.get("quick_values"):
+                    vals = list(sw["quick_values"])
+            else:
+                vals = list(range(sw["from"], sw["to"] + 1))
         for v in vals:
             work.append((t, None, v))
         for k in negs:
